@@ -14,6 +14,10 @@ void h_run(Case &c) {
   Draw &d = c.head;
   SpecOpts o; o.thissystem_flags = true;
   TopoSpec sp = gen_topospec(d, o);
+  // one case in 14: the live machine (native Linux + x86 discovery of this sandbox), where the IS_THISSYSTEM-dependent flags are legal
+  if (d.chance(1, 14)) { sp.is_native = true; sp.is_xml = false; sp.synth.clear();
+    if (d.chance(1, 3)) sp.flags |= HWLOC_TOPOLOGY_FLAG_THISSYSTEM_ALLOWED_RESOURCES;
+    if (d.chance(1, 4)) sp.flags |= HWLOC_TOPOLOGY_FLAG_IS_THISSYSTEM | (d.chance(1, 2) ? HWLOC_TOPOLOGY_FLAG_RESTRICT_TO_CPUBINDING : HWLOC_TOPOLOGY_FLAG_RESTRICT_TO_MEMBINDING); }
   c.desc(sp.text());
   hwloc_topology_t t;
   CHECK(c, hwloc_topology_init(&t) == 0, "init", "hwloc_topology_init failed");
@@ -31,7 +35,7 @@ void h_run(Case &c) {
   }
 
   int r = apply_spec_and_load(c, t, sp);
-  c.cls(sp.is_xml ? "source:xml" : "source:synthetic");
+  c.cls(sp.is_native ? "source:this-machine" : sp.is_xml ? "source:xml" : "source:synthetic");
   if (r == 0) {
     c.cls("load:ok");
     require_wf(c, t, "after load");
